@@ -71,17 +71,65 @@ func (c *Ctx) nilGuardCandidates() []*ssa.Function {
 func rulePXNilGuard(c *Ctx) []Obligation {
 	o := c.newObs("P-NILGUARD")
 	cands := c.nilGuardCandidates()
-	isCand := map[*ssa.Function]bool{}
-	for _, f := range cands {
-		isCand[f] = true
+	// Roots are judged on their own paths and stay calls inside other roots: the Code.render / isNull
+	// implementations, the list-renderer roles, exported functions and functions nobody in the module
+	// calls. Every other candidate is an unexported helper: it is inlined into the roots that call
+	// it, where the facts about what it is handed are known.
+	std := c.stdOpaque(c.role("renderItems"), c.role("isNullItems"))
+	hasCaller := map[*ssa.Function]bool{}
+	for _, g := range c.allFuncs(c.Jen) {
+		for _, b := range g.Blocks {
+			for _, in := range b.Instrs {
+				if ci, ok := in.(ssa.CallInstruction); ok {
+					if sc := ci.Common().StaticCallee(); sc != nil && sc != g {
+						hasCaller[sc] = true
+					}
+				}
+			}
+		}
 	}
-	std := c.stdOpaque()
+	isRoot := func(g *ssa.Function) bool {
+		return std(g) || isExportedName(g.Name()) || !hasCaller[g] || g.Parent() != nil
+	}
+	var roots []*ssa.Function
 	for _, f := range cands {
+		if isRoot(f) {
+			roots = append(roots, f)
+		}
+	}
+	// helpers reach a root through their callers; a root that only calls helpers is a candidate too
+	for _, g := range c.allFuncs(c.Jen) {
+		if !isRoot(g) {
+			continue
+		}
+		already := false
+		for _, r := range roots {
+			if r == g {
+				already = true
+			}
+		}
+		if already {
+			continue
+		}
+		for _, cal := range c.calleesWithin(g, 3) {
+			isC := false
+			for _, f := range cands {
+				if f == cal && !isRoot(f) {
+					isC = true
+				}
+			}
+			if isC {
+				roots = append(roots, g)
+				break
+			}
+		}
+	}
+	sort.Slice(roots, func(i, j int) bool { return fname(roots[i]) < fname(roots[j]) })
+	for _, f := range roots {
 		fn := fname(f)
-		// every candidate is judged on its own paths, so inside another candidate it stays a call
 		self := f
-		opq := func(g *ssa.Function) bool { return std(g) || (isCand[g] && g != self) }
-		paths, trunc := c.Paths(f, PXConfig{Opaque: opq, MaxVisits: 3, MaxDepth: 3, MaxPaths: 60000})
+		opq := func(g *ssa.Function) bool { return g != self && std(g) }
+		paths, trunc := c.Paths(f, PXConfig{Opaque: opq, MaxVisits: 3, MaxDepth: 4, MaxPaths: 60000})
 		if trunc || len(paths) == 0 {
 			o.undecided(fn, "path enumeration", f.Pos(), "%d paths, truncated %v", len(paths), trunc)
 			continue
